@@ -482,6 +482,11 @@ class HExec(Exec):
             to = e['type']['qualType']
             if z3.is_expr(v) and v.sort() == I_ and not z3.is_int_value(v) and 'unsigned' in to and 'unsigned' not in frm and frm in ('int', 'long'):
                 self.oblige('nowrap-cast', v >= 0, e, 'a signed value converted to unsigned is not negative')
+            desugared = e['type'].get('desugaredQualType', to)
+            for narrow, bound in (('unsigned short', 2 ** 16), ('unsigned char', 2 ** 8), ('short', 2 ** 15), ('signed char', 2 ** 7), ('char', 2 ** 7)):
+                if (to.replace('const ', '') == narrow or desugared.replace('const ', '') == narrow) and z3.is_expr(v) and v.sort() == I_:
+                    self.oblige('nowrap-cast', z3.And(v >= (0 if 'unsigned' in narrow else -bound), v < bound), e, f'a value converted to {narrow} fits into it (no truncation)')
+                    break
             if z3.is_int_value(v) and v.as_long() < 0 and 'unsigned' in to:
                 return z3.IntVal(v.as_long() % U32)
             return v
@@ -496,7 +501,13 @@ class HExec(Exec):
 
     def st_ReturnStmt(self, st, env):
         inner = [c for c in st.get('inner', []) if 'kind' in c]
-        if inner and self.model.hooks.get('ret_ref'):
+        def has_value_cast(n):
+            while n.get('kind') in ('ImplicitCastExpr', 'ParenExpr', 'ExprWithCleanups') and n.get('inner'):
+                if n.get('castKind') in ('IntegralCast', 'LValueToRValue', 'FloatingCast', 'IntegralToFloating'):
+                    return True
+                n = n['inner'][0]
+            return n.get('kind') in ('BinaryOperator', 'IntegerLiteral', 'FloatingLiteral', 'ConditionalOperator')
+        if inner and self.model.hooks.get('ret_ref') and getattr(self, '_inline_depth', 0) == 0 and not has_value_cast(inner[0]):
             raise _Return(self.model.lvalue(self, strip_casts(inner[0]), env))
         raise _Return(self.ev(inner[0], env) if inner else None)
 
@@ -979,7 +990,29 @@ def chart_records(ast):
             return PtrVecRef(base, idx)
         return NotImplemented
 
+    def inline_own(ex, obj, name, args, node):
+        """a call of another method of the class under verification that has no contract here: its body is executed in place"""
+        key = ('cell' if isinstance(obj, CellObj) else 'chart', name)
+        if key not in ms or getattr(ex, '_inline_depth', 0) > 3:
+            return NotImplemented
+        fn_ = ms[key]
+        params = [c['name'] for c in fn_.get('inner', []) if c.get('kind') == 'ParmVarDecl']
+        env2 = {'this': Ptr(obj)}
+        env2.update(dict(zip(params, args)))
+        ex._inline_depth = getattr(ex, '_inline_depth', 0) + 1
+        try:
+            ex.run(body_of(fn_), env2)
+            return None
+        except _Return as r:
+            return r.v
+        finally:
+            ex._inline_depth -= 1
+
     def chart_method(ex, obj, name, args, node):
+        if isinstance(obj, Obj) and obj.kind == 'chart':
+            r = inline_own(ex, obj, name, args, node)
+            if r is not NotImplemented:
+                return r
         if isinstance(obj, PtrVecRef) and name == 'push_back':
             p = args[0]
             obj.arr.log.append((obj.arr.which, obj.idx, p.target if isinstance(p, Ptr) else p, list(ex.pc)))
@@ -1049,6 +1082,14 @@ def chart_records(ast):
                 obj.f['items'].new.insert(0, new)
                 obj.f['category_ids'].f['ids'] = z3.Store(obj.f['category_ids'].f['ids'], src.f['cat'], z3.BoolVal(True))
                 return new
+            if name in ('size', 'begin', 'end'):
+                return NotImplemented
+            # any other method of the cell called from update: nothing is known about it - the cell may have been changed in any way
+            # (stored items are relied upon by the search: their fields and positions never change once stored)
+            obj.f['category_ids'].f['ids'] = ex.fresh('ids_after_' + name, BARR)
+            obj.f['items'].f['n0'] = ex.fresh('size_after_' + name, I_)
+            obj.tampered = name
+            return Ptr(None) if ex.branch(ex.fresh(name + '_returns_null', B_)) else Ptr(sym_item(ex, name + '_result'))
         return NotImplemented
 
     def post_u(ex, env, ret):
@@ -1060,9 +1101,11 @@ def chart_records(ast):
         lst = cell.f['items']
         if isinstance(ret, Ptr) and ret.target is None:
             return [('post', z3.And(z3.Not(nb), had), 'nullptr is returned only in 1-best mode for a category the cell already holds (in n-best mode every item is kept)'),
-                    ('frame', z3.And(cell.f['category_ids'].f['ids'] == cell.f0['ids'], z3.BoolVal(not lst.new)), 'a rejected item leaves the cell as it was')]
+                    ('frame', z3.And(cell.f['category_ids'].f['ids'] == cell.f0['ids'], lst.f['n0'] == cell.f0['n0'], z3.BoolVal(not lst.new and getattr(cell, 'tampered', None) is None)),
+                     'a rejected item leaves the cell as it was: the items already stored are never modified or replaced (the search relies on their scores, heads and children)')]
         ok = isinstance(ret, Ptr) and isinstance(ret.target, Item) and len(lst.new) == 1 and ret.target is lst.new[0]
-        return [('post', z3.Not(z3.And(z3.Not(nb), had)), 'an item is stored unless (1-best mode and the cell already holds its category): at most one item per category and cell in 1-best mode'),
+        return [('frame', z3.BoolVal(getattr(cell, 'tampered', None) is None), 'the items already stored are never modified or replaced'),
+                ('post', z3.Not(z3.And(z3.Not(nb), had)), 'an item is stored unless (1-best mode and the cell already holds its category): at most one item per category and cell in 1-best mode'),
                 ('post', z3.BoolVal(ok), 'exactly one element is added to the cell and the pointer returned is that element'),
                 ('post', item_eq(ret.target, item, fields) if ok else z3.BoolVal(False), 'the stored element is a field-by-field copy of the argument (category, children, scores, span, head, rule index)'),
                 ('post', cell.f['category_ids'].f['ids'] == z3.Store(cell.f0['ids'], item.f['cat'], z3.BoolVal(True)), 'category_ids gains exactly the category of the item'),
@@ -1071,7 +1114,7 @@ def chart_records(ast):
         if isinstance(rng, (CellObj, IList)):
             return sym_item(ex, 'element')            # an arbitrary item the cell already holds
         return NotImplemented
-    recs += verify_function(ast, ms[('chart', 'update')], 'parsing::chart::update', setup_u, post_u, [], ('C02', 'C10'),
+    recs += verify_function(ast, ms[('chart', 'update')], 'parsing::chart::update', setup_u, post_u, [], ('C02', 'C10', 'C09', 'C01'),
                             hooks=dict(method=method_u, operator=op_u, range_elem=range_elem))
 
     # ---- chart::size: number of items of the full-span cell (row 0, column length_ - 1)
@@ -1083,6 +1126,8 @@ def chart_records(ast):
     def method_s(ex, obj, name, args, node):
         if isinstance(obj, CellObj) and name == 'size':
             return obj.f['items'].f['n0']
+        if isinstance(obj, Obj) and obj.kind == 'chart':
+            return inline_own(ex, obj, name, args, node)
         return NotImplemented
 
     def post_s(ex, env, ret):
